@@ -85,7 +85,7 @@ func check(c urlCase) (kind, detail string) {
 		q = restli.QueryParamsString(c.Query)
 	}
 	var req *http.Request
-	func() {
+	build := func() {
 		defer func() {
 			if r := recover(); r != nil {
 				err = fmt.Errorf("panic: %v", r)
@@ -96,9 +96,21 @@ func check(c urlCase) (kind, detail string) {
 		} else {
 			req, err = restli.NewJsonRequest(cl, context.Background(), restli.ResourcePathString(c.Path), q, http.MethodPut, restli.Method_update, emptyBody{}, nil)
 		}
-	}()
+	}
+	before := *base
+	build()
 	if err != nil {
 		return "error", fmt.Sprintf("request construction failed: %v", err)
+	}
+	// the URL handed out by the resolver belongs to the resolver: building a request must not change
+	// it, and building the same request again must give the same URL
+	if *base != before {
+		return "resolver-url-modified", fmt.Sprintf("the resolver's URL was %q before the request was built and is %q afterwards", before.String(), base.String())
+	}
+	first := req.URL.String()
+	build()
+	if err != nil || req.URL.String() != first {
+		return "second-request-differs", fmt.Sprintf("the same request built twice on one client: %q then %q (%v)", first, req.URL.String(), err)
 	}
 	u := req.URL
 	if u.Scheme != c.Scheme || u.Host != c.Host {
